@@ -66,16 +66,20 @@ def oracle(lines, trace):
         if t[0] == "OUT":
             for x in t[t.index(":") + 1:]:
                 if int(x) in sinks:
-                    real[sinks[int(x)]] = int(t[2])
+                    # (an IPv4 and an IPv6 address of one node may sit behind NATs with the same external
+                    # address: the family of the connection tells which one a segment comes from)
+                    real[(int(t[1]), sinks[int(x)])] = int(t[2])
     srv = None
+    fam = 0
     for l in lines:
         t = l.split()
         if "tcp_connect" in t:
             i = t.index("tcp_connect")
+            fam = int(t[i + 2])
             srv = int(t[i + 3])
     for (tm, tag, f) in parse_trace(trace):
         if tag == 2 and f[1] == 5 and f[2] - f[7] == 40:      # TCP payload segment (overhead 40)
-            src = real.get(f[5], f[5])
+            src = real.get((fam, f[5]), f[5])
             paylen = f[7]
             # the limit for a connection between src and the server (either direction)
             if srv is None:
